@@ -172,4 +172,12 @@ theorem C01_tgen_level_scan_order :
 theorem C12_tgen_level_scan_order :
     has_lcget_range_levels = "yes" ∧ has_appenditers_range_levels = "yes" ∧
     ord_compact_replace_delete = "before" := by decide
+/-- C17: a MANIFEST rewrite starts from an EMPTY temporary file (`Manifest.lean`'s rewrite writes the
+    whole image; a leftover tail would be replayed as a torn record and cut off later change sets). -/
+theorem C17_tgen_rewrite_truncates : has_rewrite_opentrunc = "yes" := by decide
+/-- C26 / C06: inline-or-pointer is decided once per entry, by the threshold `valueLog.write` saw
+    (`skipVlogAndSetThreshold` memoizes it); the StreamWriter's sorted writer and `writeToLSM` ask
+    the entry. -/
+theorem C26_tgen_threshold_memo : has_sw_threshold_memo = "yes" ∧ has_lsm_threshold_memo = "yes" := by decide
+theorem C06_tgen_threshold_memo : has_sw_threshold_memo = "yes" ∧ has_lsm_threshold_memo = "yes" := by decide
 end Badger
